@@ -28,7 +28,9 @@ PROP = dict(
          "element, variant payload, closure capture) over every leaf (array<int>, string, channel<int>), every pair of containers "
          "over the mutable array, random triples (depth 3): the innermost array is pushed to on both sides after the spawn and "
          "observed on both sides (a channel leaf must be shared), each with a `heapalias` model request walking the same slots; "
-         "plus (quick 60 / thorough 750) HISTORIES of copies on one thread: the spawner reads heap messages "
+         "plus SHARED CHILDLESS (quick 24): an empty array / array<void> / empty nested array / struct of "
+         "immediates reachable along 2-3 paths of one capture, mutated through one path and observed through the others on both "
+         "sides; plus (quick 60 / thorough 750) HISTORIES of copies on one thread: the spawner reads heap messages "
          "it wrote itself (array / struct holding the array), mutates in between, spawns tasks capturing those same objects, in "
          "random order (a read first, a spawn after it); then every task, every snapshot and the originals are mutated and all "
          "are printed - nothing may survive from one copy to the next). In the alias shapes the task mutates through one alias and observes through the other, so does "
